@@ -283,8 +283,9 @@ class Algebra(Stream):
 class ApplyNoExpand(Stream):
     """expand=False: the melody is not repeated, missing notes are rests; the result still lasts the grid and has one element per pulse"""
     name = "apply_no_expand"
-    checker = None
-    pair = "property oracle on Metric.apply_to_melody(expand=False): duration, one element per pulse, notes in order then rests"
+    mods = MODEL_MODS
+    checker = "check_apply_ne"
+    pair = "Metric.apply_to_melody(expand=False) (padding with rests, _apply_durations_to_melody) <-> Metric.apply_metric_ne; oracle: duration, one element per pulse, notes in order then rests"
     quick, thorough = 600, 8000
 
     def gen(self, rng, n):
@@ -302,6 +303,17 @@ class ApplyNoExpand(Stream):
             return {"duration": F(res.duration), "metric_duration": F(met.duration), "onsets": [F(t) for t in res.get_onset_times()],
                     "elems": [[x.type, int(x.val), int(x.octave)] for x in res.notes], "mel_unchanged": len(notes) == len(case["mel"])}
         return mlang.guarded(f)
+
+    def term(self, case, r):
+        if mlang.is_exc(r):
+            return T(core.Zl(case["array"]), Z(len(case["mel"])), "None")
+        tat, items = F(case["tatum"]), []
+        ends = r["onsets"][1:] + [r["duration"]]
+        for e, t0, t1 in zip(r["elems"], r["onsets"], ends):
+            k = (F(t1) - F(t0)) / tat
+            assert k.denominator == 1
+            items.append(T(O(None if e[0] == "r" else e[2] * 7 + e[1], Z), Z(int(k))))
+        return T(core.Zl(case["array"]), Z(len(case["mel"])), "(Some " + L(items) + ")")
 
     def spec(self, case, r):
         if mlang.is_exc(r):
